@@ -299,6 +299,11 @@ func verifyDelayPeriodPassed(ctx sdk.Context, store storetypes.KVStore, proofHei
 
 		currentTimestamp := uint64(ctx.BlockTime().UnixNano())
 		validTime := processedTime + delayTimePeriod
+		// if the addition overflows, the delay period can never pass
+		if validTime < processedTime {
+			return errorsmod.Wrapf(ErrDelayPeriodNotPassed, "delay time period overflows: processed time: %d, delay time period: %d",
+				processedTime, delayTimePeriod)
+		}
 
 		// NOTE: delay time period is inclusive, so if currentTimestamp is validTime, then we return no error
 		if currentTimestamp < validTime {
@@ -315,7 +320,13 @@ func verifyDelayPeriodPassed(ctx sdk.Context, store storetypes.KVStore, proofHei
 		}
 
 		currentHeight := clienttypes.GetSelfHeight(ctx)
-		validHeight := clienttypes.NewHeight(processedHeight.GetRevisionNumber(), processedHeight.GetRevisionHeight()+delayBlockPeriod)
+		validRevisionHeight := processedHeight.GetRevisionHeight() + delayBlockPeriod
+		// if the addition overflows, the delay period can never pass
+		if validRevisionHeight < processedHeight.GetRevisionHeight() {
+			return errorsmod.Wrapf(ErrDelayPeriodNotPassed, "delay block period overflows: processed height: %s, delay block period: %d",
+				processedHeight, delayBlockPeriod)
+		}
+		validHeight := clienttypes.NewHeight(processedHeight.GetRevisionNumber(), validRevisionHeight)
 
 		// NOTE: delay block period is inclusive, so if currentHeight is validHeight, then we return no error
 		if currentHeight.LT(validHeight) {
